@@ -340,7 +340,7 @@ func genHandlerCase(r *c.Rng) *Case {
 		}
 	}
 	k.Op = "handler"
-	k.AzForeign = false
+	k.AzForeign, k.AzSib = false, nil
 	// the store keeps challenges as JSON: an identifier or token that is not valid UTF-8 cannot be stored as such
 	k.Value, k.Token = strings.ToValidUTF8(k.Value, "\ufffd"), strings.ToValidUTF8(k.Token, "\ufffd")
 	if k.DA != nil {
